@@ -141,7 +141,7 @@ def mp_prog(rnd, nops, nslots, fail=None):
     if fail:
         L.append("fail %d %s" % fail)
     for _ in range(nops):
-        L.append("%s %d" % (rnd.choice(["pmalloc", "pmalloc", "pfree"]), rnd.randint(1, nslots)))
+        L.append("%s %d" % (rnd.choice(["pmalloc"] * 6 + ["pfree"] * 3 + ["patexit"]), rnd.randint(1, nslots)))      # patexit: handed back by an exit handler
     L.append("end")
     return "\n".join(L) + "\n"
 
